@@ -178,6 +178,7 @@ RULES = [
     ("C17-R1", "failure branches of the walker count, report and continue", r1),
     ("C17-R3", "content readers are total", r3),
     ("C17-R4", "closed standard output is handled at every write", r4),
+    ("C10-R3", "exit status mapping: no failure -> 0, failures -> 1 [shared with C10]", lambda ctx: c10.r3(ctx)),
 ]
 
 EXPLANATION = (
